@@ -89,6 +89,12 @@ def run(c):
     rt.replay_witnesses(c, oracle)
     cases, dis, stats = rt.run_rt(c, oracle, n, k, gen_hist=rt.flushing(hrt.gen_history),
                                   known_classifier=rt.known_by(c, [('F9', rt.f9_territory)]))
+    # bit-packed layouts (sub-byte alignments, byte-sized integers that are not byte-aligned)
+    cases_b, dis_b, stats_b = rt.run_rt(c, oracle, max(3, n // 2), k, gen_hist=rt.flushing(hrt.gen_history),
+                                        known_classifier=rt.known_by(c, [('F9', rt.f9_territory)]),
+                                        label='H-runtime (bit-packed)', profile='rt-bits', seed_base=300)
+    cases = cases + cases_b
+    dis = dis + dis_b
     # static correspondences: op trees, implicit structures, TSDL IR, and the two readers on real packets
     ncmp, nbad, first = 0, 0, None
     bad_texts = []
